@@ -47,6 +47,23 @@ def close(a, b, tol=1e-9):
     return a.shape == b.shape and np.allclose(a, b, rtol=0, atol=tol * (1 + np.max(np.abs(b))))
 
 
+def series_exp(M):
+    """exp(M) by scaling and squaring of the Taylor series (independent of scipy's Pade routine and of any eigendecomposition:
+    correct for non-diagonalisable matrices too)."""
+    M = np.asarray(M, dtype=float)
+    nrm = np.max(np.sum(np.abs(M), axis=1)) if M.size else 0.0
+    s = max(0, int(np.ceil(np.log2(max(nrm, 1e-300)))) + 4)
+    X = M / (2.0 ** s)
+    term = np.eye(len(M))
+    out = np.eye(len(M))
+    for k in range(1, 40):
+        term = term @ X / k
+        out = out + term
+    for _ in range(s):
+        out = out @ out
+    return out
+
+
 def run_case(chk, case):
     from quara.objects import effective_lindbladian as EL
     c = qobjs.csys("qubit", 1)
@@ -190,6 +207,8 @@ def run_case(chk, case):
                 g = et.to_gate()
                 if not g.is_physical(1e-9, 1e-9):
                     bad("to_gate:unphysical", "exp(t L) is not physical for t=%g" % tscale)
+                if not close(g.hs, series_exp(tscale * hs_want), 1e-9):
+                    bad("to_gate:value", "to_gate() differs from the exponential series of t L for t=%g" % tscale)
                 g2 = EL.EffectiveLindbladian(c, 2 * tscale * hs_want, is_physicality_required=False).to_gate()
                 if not close(g2.hs, g.hs @ g.hs, 1e-9):
                     bad("to_gate:semigroup", "to_gate(2 t L) != to_gate(t L)^2 for t=%g" % tscale)
@@ -261,6 +280,54 @@ def other_systems(chk, rs):
                 chk.violation("other:exception:%s" % shape, "%r" % e, dict(shape=shape))
 
 
+def exceptional_points(chk):
+    """generators that are NOT diagonalisable (Jordan blocks: critical damping of a driven qubit, equal-rate ladder decay of a
+    qutrit, and the same with a detuning): physical generators whose exponential must be physical and equal to the series."""
+    from quara.objects import effective_lindbladian as EL
+    X = np.array([[0, 1], [1, 0]], dtype=complex)
+    Z = np.array([[1, 0], [0, -1]], dtype=complex)
+
+    def super_of(H, jumps):
+        d = len(H)
+        I = np.eye(d)
+        S = -1j * (np.kron(H, I) - np.kron(I, H.conj()))
+        for cj in jumps:
+            n = cj.conj().T @ cj
+            S = S + np.kron(cj, cj.conj()) - 0.5 * np.kron(n, I) - 0.5 * np.kron(I, n.T)
+        return S
+    e = lambda d, i, j: np.eye(d, dtype=complex)[:, [i]] @ np.eye(d, dtype=complex)[[j], :]
+    cases = []
+    for om in (1.0, 0.1, 0.5):
+        cases.append(("q", "critical_damping:%g" % om, om * X / 2, [np.sqrt(om) * Z]))
+    for rate in (1.0, 0.25):
+        cases.append(("t", "ladder:%g" % rate, np.zeros((3, 3), dtype=complex), [np.sqrt(rate) * e(3, 0, 1), np.sqrt(rate) * e(3, 1, 2)]))
+        cases.append(("t", "ladder_detuned:%g" % rate, np.diag([0.0, 0.3, 0.6]).astype(complex), [np.sqrt(rate) * e(3, 0, 1), np.sqrt(rate) * e(3, 1, 2)]))
+    for shape, name, H, jumps in cases:
+        c = spectral.csys_of(shape)
+        chk.count(1, ("exceptional", name))
+        ctx = dict(shape=shape, case=name)
+        hs = lib_hs_of_super(shape, super_of(H, jumps))
+        if np.max(np.abs(hs.imag)) > 1e-12:
+            raise core.MachineryError("GKSL generator with complex HS matrix")
+        hs = hs.real
+        try:
+            el = EL.EffectiveLindbladian(c, hs.copy(), is_physicality_required=False)
+            if not el.is_physical(1e-9, 1e-9):
+                chk.violation("exceptional:physical:%s" % name, "a GKSL generator is judged non-physical", ctx)
+            for t in (1.0, 0.1, 3.0):
+                g = EL.EffectiveLindbladian(c, t * hs, is_physicality_required=False).to_gate()
+                want = series_exp(t * hs)
+                if not close(g.hs, want, 1e-9):
+                    chk.violation("exceptional:to_gate:value:%s" % name, "to_gate() of the non-diagonalisable generator differs from the exponential series "
+                                  "(t=%g, max dev %.3g)" % (t, float(np.max(np.abs(np.asarray(g.hs) - want)))), ctx)
+                    break
+                if not g.is_physical(1e-8, 1e-8):
+                    chk.violation("exceptional:to_gate:unphysical:%s" % name, "exp(t L) of a physical generator is not physical (t=%g)" % t, ctx)
+                    break
+        except Exception as ex:
+            chk.violation("exceptional:exception:%s" % name, "%r" % ex, ctx)
+
+
 def run(chk):
     rs = np.random.RandomState(chk.seed % (2 ** 31))
     t = chk.tier
@@ -272,8 +339,9 @@ def run(chk):
             chk.sample(dict(h=case["h"], k=case["k"], j=case["j"], K=case["K"], L_row0=case["L"][0]))
     degenerate_frames(chk, rs)
     other_systems(chk, rs)
+    exceptional_points(chk)
     chk.assumptions += [
         "exact generators for one qubit (rational H, K, jump operators); qutrit and two qubits through seeded generic (H, K) against the numpy transcription of QLind!Gksl, which is itself validated against TLC's exact generators",
-        "the matrix exponential is not computed in the specification: physicality, exp(0) = identity and the semigroup law only",
+        "the matrix exponential is not computed in the specification: physicality, exp(0) = identity, the semigroup law, and agreement with an independent scaling-and-squaring Taylor series (also at non-diagonalisable generators)",
     ]
     return chk.finish(exhaustive=True, rule="every (H, K, jump set) emitted by TLC; degenerate spectra x frames; seeded generators on larger systems; distinct = generators")
